@@ -234,10 +234,11 @@ pub async fn run() {
             ep_channel = Some(f.channel);
         }
         if f.code == wire::CLOSE {
-            // recorded finding: the session engine, started when the application accepts, finds the
+            // (a defect found here and repaired: the session engine, started when the application accepts, finds the
             // pipelined end, answers and releases its slot through the control channel, which can
             // overtake the begin (and end) it queued on the frame channel: the connection engine then
-            // finds no session for that begin and closes the connection with amqp:not-found
+            // finds no session for that begin and closes the connection with amqp:not-found; the signature
+            // names that case should it come back)
             let cond = wire::error_condition(f.perf.as_ref().unwrap().field(0)).unwrap_or_default();
             let sig = if script == Script::SessionGoneBeforeAccept && cond == "amqp:not-found" { "end-pipelined-before-the-listener-accepted-the-session" } else { "" };
             sim::violation_sig("connection-torn-down", sig, format!("the listener closed the connection: {}", wire::describe_frame(f)));
